@@ -1,12 +1,17 @@
 package term
 
 import (
+	"fmt"
 	"math/rand"
+	"os"
 	"testing"
 )
 
 func TestSimplifierAgainstReference(t *testing.T) {
 	n := 200000
+	if os.Getenv("TERM_SELFTEST_N") != "" {
+		fmt.Sscan(os.Getenv("TERM_SELFTEST_N"), &n)
+	}
 	if testing.Short() {
 		n = 20000
 	}
